@@ -193,6 +193,40 @@ def run(rep, tier, seed):
         add(b, Context, ctx, 'context', ' '.join(t))
         ctxs.append((ctx, stack, pkt, pd.direction))
     b.run()
+    # sequences: serialising after an edit must describe the edited object; editing a reloaded object must not touch later loads
+    import copy
+    for ctx, stack, pkt, d in ctxs[:(40 if not T else 400)]:
+        text0 = ctx.json()
+        comp = [r for r in ctx.ruleset if r.nature is RuleNature.COMPRESSION and r.field_descriptors]
+        rep.count('sequence:edit-serialise', key=('seq', ctx.id))
+        rep.oracle_evals += 1
+        if comp:
+            r = rnd.choice(comp)
+            k = rnd.randrange(len(r.field_descriptors))
+            old_fd = r.field_descriptors[k]
+            pdk = parser_for(stack).parse(Buffer(pkt, len(pkt) * 8))
+            fld = [f for f in pdk.fields if str(f.id) == str(old_fd.id)]
+            if fld:
+                r.field_descriptors[k] = gen_rfd(rnd, fld[0], rnd.choice(('ns', 'lsb', 'map')), old_fd.direction)
+                fresh = Context(id=ctx.id, description=ctx.description, interface_id=ctx.interface_id, parser_id=ctx.parser_id, ruleset=list(ctx.ruleset))
+                out = impl_outcome(lambda: (ctx.json() == fresh.json(), Context.from_json(ctx.json()) == ctx))
+                if out != ('OK', (True, True)):
+                    rep.violation('property', 'sequence: after replacing a rule field descriptor the context serialises to stale or wrong JSON: %s' % (out,),
+                                  dict(layer='json', op='sequence-edit', before=text0))
+                r.field_descriptors[k] = old_fd
+        # two loads of the same text are independent objects
+        out = impl_outcome(lambda: (Context.from_json(text0), Context.from_json(text0)))
+        if out[0] == 'OK':
+            c1, c2 = out[1]
+            for bfr in all_buffers(c1, [])[:6]:
+                if bfr.length > 0:
+                    impl_outcome(lambda: bfr.shift(-3, inplace=True))
+                    impl_outcome(lambda: bfr.pad(R if bfr.padding == 'left' else L, inplace=True))
+            c3 = impl_outcome(lambda: Context.from_json(text0))
+            ok = impl_outcome(lambda: (c2 == ctx, c2.json() == text0, c3[1] == ctx, c3[1].json() == text0))
+            if ok != ('OK', (True, True, True, True)):
+                rep.violation('property', 'sequence: editing a buffer of one reloaded context changed another load of the same JSON: %s' % (ok,),
+                              dict(layer='json', op='sequence-alias', json=text0))
     # behaviour: manager on the reloaded context vs manager on the original
     for ctx, stack, pkt, d in ctxs:
         out = impl_outcome(lambda: Context.from_json(ctx.json()))
